@@ -971,11 +971,12 @@ var trustedBase = []string{
 	"gvc itself: the SSA->SMT translation in /verif/engine (memory model, guards, loop cutting, call rule)",
 	"golang.org/x/tools go/ssa + go/types (v0.50.0) and the Go 1.26.8 front end",
 	"SMT solvers z3 4.8.12, z3 5.1.0, cvc5 1.0 (an obligation counts as discharged when one of them answers unsat and none answers sat)",
-	"externals table /verif/engine/externs.go: sync, sync/atomic (with rely conditions from the contracts file), time (non-decreasing ghost clock), bytes.Equal, math.Log* (uninterpreted monotone), encoding/binary, fmt/log/metrics as no-ops",
+	"externals table /verif/engine/externs.go: sync, sync/atomic (with rely conditions from the contracts file), time (non-decreasing ghost clock), bytes.Equal, math.Log* (uninterpreted monotone), encoding/binary, fmt/log/metrics as no-ops, math/rand.Shuffle (calls its swap function with indices inside [0,n) only), cipher.AEAD (Seal adds 16 bytes, Open removes them and may overwrite a non-nil dst even when it fails), net.ParseCIDR (a network unless an error)",
 	"integers are mathematical with Go range assumptions; unsigned arithmetic wraps exactly; signed overflow is checked only in functions marked `arith checked`; floats are reals",
 	"sequential consistency; reads of lock-protected state outside the lock see some invariant-satisfying state; goroutine spawns, channel traffic and select are abstracted (listed per function)",
 	"user delegates honour their interface contracts in the contracts file (no re-entry, no mutation of memberlist state)",
-	"github.com/google/btree is modelled (engine/btree.go) as a finite set of items ordered by the pure btreeLess of the contracts file: ReplaceOrInsert/Delete by key equality, Min/Max extremal, Ascend*/Descend* call back once per item of the range unless stopped, nil receiver panics",
+	"github.com/google/btree is modelled (engine/btree.go) as a finite set of items ordered by the pure btreeLess of the contracts file: ReplaceOrInsert/Delete by key equality, Min/Max extremal, Ascend*/Descend* call back once per item of the range, in the order of btreeLess, unless stopped, nil receiver panics",
+	"lock levels (C20): held-lock sets come from a may-analysis over the SSA control-flow graph, callees from summaries over static calls, in-package interface implementations and function values resolved by signature; a mutex is identified by the struct field it lives in; user delegates are assumed not to block or re-enter",
 	"prelude lemmas about the sum-of-lengths spec function sumlens (non-negativity, split, frame under store, extensionality, element bound): base case and inductive step of each are discharged by the solvers from instances of the three defining axioms (obligations prelude:sumlens/lemma/*); the induction principle of the naturals is applied outside the solver",
 }
 
